@@ -10,7 +10,8 @@
 (* complete enumeration of the fault/operation space and the statement of what  *)
 (* must hold after an error (UsableAfterError).                                 *)
 EXTENDS Integers, Sequences, SequencesExt, FiniteSets, TLC
-CONSTANTS MaxMut, MaxOps, Fields, Ops
+CONSTANTS MaxMut, MaxOps, Fields, Ops,
+          Focus     \* {} = every mutation set; otherwise only the sets touching one of these fields (deeper histories on a slice)
 
 \* value classes per field kind
 Classes(f) ==
@@ -44,7 +45,8 @@ Mutate(m) == /\ phase = "mutate" /\ Len(muts) < MaxMut /\ Valid(m)
              /\ \A i \in 1..Len(muts) : muts[i].f # m.f
              /\ (Len(muts) > 0 => Rank(muts[Len(muts)].f) < Rank(m.f))   \* sets, not sequences (canonical order)
              /\ muts' = Append(muts, m) /\ UNCHANGED <<ops, phase, broken>>
-Start == phase = "mutate" /\ phase' = "run" /\ UNCHANGED <<muts, ops, broken>>
+Start == /\ phase = "mutate" /\ (Focus = {} \/ \E i \in 1..Len(muts) : muts[i].f \in Focus)
+         /\ phase' = "run" /\ UNCHANGED <<muts, ops, broken>>
 \* any operation in any order, also after an error ("open" again re-opens the reader)
 Do(o) == /\ phase = "run" /\ Len(ops) < MaxOps
          /\ (Len(ops) = 0 => o \in {"open", "repair"})
